@@ -168,7 +168,8 @@ SMS_QUICK = [
     ('concat[sms 2 sources,sms shared source]', CC(SM('ab', 'AAAA,?CAA', ('o.js', 'p.js'), ('ab', 'pq')), SM('cd', 'AAAA,?AAA', ('p.js',), ('pq',)))),
     ('replace(sms(abcd content differs),[sym X])', RP(SM('abcd', 'AAAA,EAAE', ('o.js',), ('wxyz',)), (Q, Q, 'X'))),
     ('replace(sms(abcd content equal, named),[sym X])', RP(SM('abcd', 'AAAAA,EAAEC', ('o.js',), ('abcd',), ('n1', 'n2')), (Q, Q, 'X'))),
-    ('sms(empty text)', SM('', 'AAAA', ('o.js',))),
+    ('sms(empty text, empty map)', SM('', '', ('o.js',))),
+    ('sms(ab, only unmapped segments)', SM('ab', 'A,C', ('o.js',))),
 ]
 SMS_WILD = [
     ('wild:sms(ab/cd,any single digits)', SM('ab\ncd', '????;A???', ('o.js',), ('ab',), ('n',), None, 8, False)),
